@@ -38,6 +38,7 @@ template <typename T> struct kit<T, 0>
 {
     using E = std::mt19937;
     using C = hep::plain_chkpt_with_rng<E, T>;
+    using Base = hep::plain_chkpt<T>;
     static C fresh() { return hep::make_plain_chkpt<T, E>(E(3)); }
     template <typename CB> static C run(std::vector<sz> const& calls, C const& c, CB cb) { return hep::plain(hep::make_integrand<T>(pf<T>(), 2), calls, c, cb); }
     static C load(std::istream& in) { return hep::make_plain_chkpt<T, E>(in); }
@@ -46,6 +47,7 @@ template <typename T> struct kit<T, 1>
 {
     using E = std::mt19937;
     using C = hep::vegas_chkpt_with_rng<E, T>;
+    using Base = hep::vegas_chkpt<T>;
     static C fresh() { return hep::make_vegas_chkpt<T, E>(128, T(1.5), E(3)); }
     template <typename CB> static C run(std::vector<sz> const& calls, C const& c, CB cb) { return hep::vegas(hep::make_integrand<T>(pf<T>(), 4), calls, c, cb); }
     static C load(std::istream& in) { return hep::make_vegas_chkpt<T, E>(in); }
@@ -54,6 +56,7 @@ template <typename T> struct kit<T, 2>
 {
     using E = std::mt19937;
     using C = hep::multi_channel_chkpt_with_rng<E, T>;
+    using Base = hep::multi_channel_chkpt<T>;
     static vf::pl_map<T> map() { vf::pl_map<T> m; for (sz i = 0; i != 30; ++i) m.split.push_back(T(i + 1) / T(31)); return m; }
     static C fresh() { return hep::make_multi_channel_chkpt<T, E>(T(0.001L), T(0.25), E(3)); }
     template <typename CB> static C run(std::vector<sz> const& calls, C const& c, CB cb) { return hep::multi_channel(hep::make_multi_channel_integrand<T>(mf<T>(), 1, map(), 1, 30), calls, c, cb); }
@@ -62,10 +65,10 @@ template <typename T> struct kit<T, 2>
 
 // marks the operation log position at every callback invocation (= iteration boundary)
 static std::vector<sz> g_marks;
-template <typename C>
+template <typename C, typename Inner = hep::callback<C>>
 struct mark_cb
 {
-    hep::callback<C> inner;
+    Inner inner;
     bool operator()(C const& c) { bool const more = inner(c); g_marks.push_back(vf::fs().log.size()); return more; }
 };
 
@@ -125,12 +128,17 @@ static std::string describe_op(vf::fs_op const& op)
 static std::set<std::string> g_side_files;
 
 template <typename T, int K>
-static void scenario(report& r, int mode, bool preexisting, bool leftover = false, long fail_rename = -1)
+static void scenario(report& r, int mode, bool preexisting, bool leftover = false, long fail_rename = -1, int variant = 0)
 {
+    // variant 1: the callback is instantiated for the checkpoint's base type; variant 2: the file name ends in ".tmp"
+    std::string const saved_chk = g_chk;
+    if (variant == 2) g_chk = g_dir + "/run.tmp";
+    struct restore { std::string const& s; ~restore() { g_chk = s; } } restore_name{saved_chk};
     using Kt = kit<T, K>;
     using C = typename Kt::C;
     std::string const base = std::string(vf::type_name<T>()) + " kind=" + std::to_string(K) + " mode=" + std::to_string(mode) + " preexisting=" + std::to_string(preexisting)
-        + (leftover ? " leftover=1" : "") + (fail_rename >= 0 ? " failing-rename=" + std::to_string(fail_rename) : "");
+        + (leftover ? " leftover=1" : "") + (fail_rename >= 0 ? " failing-rename=" + std::to_string(fail_rename) : "")
+        + (variant == 1 ? " base-type-callback" : variant == 2 ? " name=run.tmp" : "");
     if (!r.want_prefix(base.substr(0, std::min(base.size(), r.a().replay_case.size())))) return;
     hep::callback_mode const cm = mode == 0 ? hep::callback_mode::silent_and_write_chkpt : hep::callback_mode::verbose_and_write_chkpt;
 
@@ -155,7 +163,8 @@ static void scenario(report& r, int mode, bool preexisting, bool leftover = fals
         std::ostringstream sink;
         std::streambuf* const old = std::cout.rdbuf(sink.rdbuf());
         g_marks.clear();
-        C c = Kt::run(g_calls, Kt::fresh(), mark_cb<C>{hep::callback<C>(cm, g_chk)});
+        C c = variant == 1 ? Kt::run(g_calls, Kt::fresh(), mark_cb<C, hep::callback<typename Kt::Base>>{hep::callback<typename Kt::Base>(cm, g_chk)})
+                           : Kt::run(g_calls, Kt::fresh(), mark_cb<C>{hep::callback<C>(cm, g_chk)});
         std::cout.rdbuf(old);
         return text_of(c);
     };
@@ -323,6 +332,8 @@ static void for_type(report& r)
         scenario<T, 1>(r, mode, pre != 0, true);
         // an environment fault before the kill: the first / second rename of the run fails
         if (mode == 0) { scenario<T, 0>(r, mode, pre != 0, false, 0); scenario<T, 0>(r, mode, pre != 0, false, 1); scenario<T, 2>(r, mode, pre != 0, false, 1); }
+        // other spellings: callback for the base checkpoint type, a checkpoint file named "run.tmp"
+        if (mode == 0) { scenario<T, 0>(r, mode, pre != 0, false, -1, 1); scenario<T, 1>(r, mode, pre != 0, false, -1, 1); scenario<T, 0>(r, mode, pre != 0, false, -1, 2); }
         if (r.deadline_hit()) return;
     }
 }
